@@ -17,6 +17,7 @@ func init() {
 func derPrelude(quant bool) string {
 	s := `
 (declare-fun g_der (Int g_SeqI) g_SeqI)
+(declare-fun g_dertail (g_SeqI) g_SeqI)
 (declare-fun g_parse_ok (g_SeqI) Bool)
 (declare-fun g_parse_tag (g_SeqI) Int)
 (declare-fun g_parse_body (g_SeqI) g_SeqI)
@@ -41,6 +42,8 @@ func derPrelude(quant bool) string {
 	s += `
 (assert (forall ((t Int) (b g_SeqI)) (! (and (>= (g_SeqI_len (g_der t b)) (+ (g_SeqI_len b) 2)) (<= (g_SeqI_len (g_der t b)) (+ (g_SeqI_len b) 6))) :pattern ((g_der t b)))))
 (assert (forall ((t Int) (b g_SeqI)) (! (=> (and (g_isbytes b) (<= 0 t) (<= t 255)) (and (g_isbytes (g_der t b)) (= (g_SeqI_idx (g_der t b) 0) t))) :pattern ((g_der t b)))))
+(assert (forall ((t Int) (b g_SeqI)) (! (= (g_SeqI_len (g_der t b)) (+ 1 (g_SeqI_len (g_dertail b)))) :pattern ((g_der t b)))))
+(assert (forall ((t Int) (b g_SeqI) (i Int)) (! (=> (and (<= 1 i) (<= i (g_SeqI_len (g_dertail b)))) (= (g_SeqI_idx (g_der t b) i) (g_SeqI_idx (g_dertail b) (- i 1)))) :pattern ((g_SeqI_idx (g_der t b) i)))))
 (assert (forall ((t Int) (b g_SeqI) (r g_SeqI)) (! (=> (and (<= 0 t) (<= t 255) (not (= (mod t 32) 31)) (g_isbytes b))
    (and (g_parse_ok (g_SeqI_app (g_der t b) r)) (= (g_parse_tag (g_SeqI_app (g_der t b) r)) t) (= (g_parse_body (g_SeqI_app (g_der t b) r)) b) (= (g_parse_rest (g_SeqI_app (g_der t b) r)) r)))
    :pattern ((g_SeqI_app (g_der t b) r)))))
@@ -277,6 +280,32 @@ func init() {
 			set := setStr(x, args[1])
 			return readTLV(x, st, fr, args[0], tagOf(x, st, args[2]), instr,
 				func(st *State, body, whole string) { set(st, whole) }, func(st *State, body, whole string) { set(st, whole) })
+		})
+	ext(S+"ReadAnyASN1", "String.ReadAnyASN1(out, outTag): if the string starts with a DER element: consumes it, *out = body, *outTag = its tag, true; false and unchanged otherwise",
+		func(x *Exec, st *State, fr *Frame, cc *ssa.CallCommon, args []Val, instr ssa.Instruction) []Outcome {
+			c, ok := strCell(args[0])
+			if !ok {
+				st.kill("cryptobyte.String receiver is not a local/parameter variable")
+				return one(st, TV{SBool, "false"})
+			}
+			s := x.cellSeq(st, c)
+			pok := app("g_parse_ok", s)
+			ptag := app("g_parse_tag", s)
+			body := app("g_parse_body", s)
+			rest := app("g_parse_rest", s)
+			none := st.fork()
+			none.assume(tNot(pok))
+			st.assume(pok)
+			st.assume(tEq(s, sApp(SSeqI, app("g_der", ptag, body), rest)))
+			st.assume(tAnd(app("g_isbytes", body), app("g_isbytes", rest)))
+			st.assume(tAnd(tCmp("<=", "0", sLen(SSeqI, body)), tCmp("<=", "0", sLen(SSeqI, rest)), tCmp("<=", tAdd(tAdd(sLen(SSeqI, body), sLen(SSeqI, rest)), "2"), sLen(SSeqI, s))))
+			st.assume(tAnd(tCmp("<=", "0", ptag), tCmp("<=", ptag, "255")))
+			st.cells[c] = TV{SSeqI, rest}
+			setStr(x, args[1])(st, body)
+			if p, ok := args[2].(PtrV); ok && !p.Nil {
+				x.store(st, p, TV{SInt, ptag})
+			}
+			return []Outcome{{none, TV{SBool, "false"}}, {st, TV{SBool, "true"}}}
 		})
 	ext(S+"SkipASN1", "String.SkipASN1(tag): ReadASN1 discarding the body",
 		func(x *Exec, st *State, fr *Frame, cc *ssa.CallCommon, args []Val, instr ssa.Instruction) []Outcome {
